@@ -128,6 +128,10 @@ pub fn exec(cx: &mut Ctx, c: &Case) {
             for &k in &cuts {
                 h.update(&m[at..k]);
                 at = k;
+                // continue on a clone taken mid-message (the original is dropped)
+                if c.mseed & 4 != 0 {
+                    h = h.box_clone();
+                }
             }
             h.update(&m[at..]);
             h.finalize_box()
